@@ -296,3 +296,21 @@ PLAN["C08"]["rule"] += ("; in the failed-call runs the victim may perform a foll
 PLAN["C15"]["rule"] += ("; in half of the stall scripts the peer falls silent after a generated number of replies, so that other requests (own deadlines 25 s away) are pending when the stalled one times out")
 PLAN["C19"]["rule"] += ("; variant: the clone process runs with MAX_CHAIN_LENGTH=2, so that create, open and the file copy work but its reload onto a copied chain of more than one snapshot fails: it must end in "
                         "status error and is never readable")
+
+PLAN["C11"]["needs_jiva"] = True
+PLAN["C11"]["quick"]["tests"][0]["shards"] = 11
+PLAN["C11"]["quick"]["tests"].append({"run": "TestC11Cleaner", "shards": 10, "checks": 1, "timeout": 110, "shrink": "1s"})
+PLAN["C11"]["quick"]["wall"] = 150
+PLAN["C11"]["thorough"]["tests"][0]["shards"] = 11
+PLAN["C11"]["thorough"]["tests"].append({"run": "TestC11Cleaner", "shards": 8, "checks": 10, "timeout": 860, "shrink": "1s"})
+PLAN["C11"]["rule"] += ("; TestC11Cleaner: the product's own deletion path - user delete requests (Controller.DeleteSnapshot: mark on every replica) and sync.Task.InternalSnapshotCleaner running "
+                        "against every RW replica of a real controller (RF 1-3, chains with user and automatic snapshots from rebuild cycles, checkpoint recorded by the promotion that completes the set) "
+                        "for one 60 s tick with foreground reads and writes, its folds done by real sync-agent / sfold child processes, in half of the cases with the agents stopped (every fold fails): "
+                        "whatever it removed was a valid candidate by the statement (never without a checkpoint, never after a failed fold), the live image and every retained user snapshot are unchanged")
+
+# tests whose cases take from ten seconds to a minute: the first failing case is reported as it is (no re-runs for shrinking)
+for _pid in PLAN:
+    for _tier in ("quick", "thorough"):
+        for _t in PLAN[_pid][_tier]["tests"]:
+            if _t["run"] in ("TestC07System", "TestC07Kill", "TestC11Cleaner", "TestC19"):
+                _t.setdefault("env", {})["VERIF_NOSHRINK"] = 1
